@@ -523,6 +523,17 @@ def header_cases(rng, n):
         if rng.random() < 0.6:
             mine(rng, h, want=rng.random() < 0.8, tries=200)
         add(cases, 1603, [rng.randrange(4), h, rng.choice([0, 1, 1]), rng.choice([T0, T0 + 1, h[3] - 7200, h[3] - 7201])], 'hdr')
+    # sign bit set over an otherwise zero mantissa (0xNN800000): never a valid target, even when the hash is tiny
+    for bits in (0x1f800000, 0x20800000, 0x1e800000):
+        h = W.rand_header(rng)
+        h[3], h[4] = T0, bits
+        naive = (bits & 0xffffff) << (8 * ((bits >> 24) - 3))      # what the bits would mean if the sign bit were magnitude
+        for _ in range(40000):
+            h[5] = rng.getrandbits(32)
+            if int.from_bytes(H(W.ser_header(h)), 'little') <= naive:
+                break
+        add(cases, 1603, [3, h, 1, T0], 'hdr-signbit')
+        add(cases, 1603, [rng.randrange(3), h, 0, T0], 'hdr-signbit')
     # an explicit cur_time of 0 or 1 is a time like any other (the 2 h rule is relative to it, not to the wall clock)
     for ct in (0, 1):
         for nt in (0, ct + 7199, ct + 7200, ct + 7201, 100000):
